@@ -104,13 +104,14 @@ Lemma tinv_frame C C' s s' u :
   C' u = C u ->
   (forall x, c_sig (C' x) = c_sig (C x)) -> (forall x, c_run (C' x) = c_run (C x)) ->
   (forall x, c_wake (C' x) = c_wake (C x)) ->
-  holder s' = holder s -> (token s' = Some (Some u) <-> token s = Some (Some u)) -> running s' = running s ->
+  holder s' = holder s -> (token s' = Some (Some u) <-> token s = Some (Some u)) ->
+  (running s = Some u -> running s' = Some u) ->
   cur s' = cur s -> (forall x, ph s' x = ph s x) -> ev s' u = ev s u -> slp s' u = slp s u ->
   ist s' u = ist s u -> runs s' u = runs s u -> remote s' u = remote s u ->
   tinv C s u -> tinv C' s' u.
 Proof.
   intros Eu Es Er Ew Eh Et Eru Ec Ep Ee Esl Ei Ern Erm [T1 T2 T3 T4 T5 T6 T7 T8 T9 T10 T11 T12 T13 T14 T15].
-  constructor; rewrite ?Eu, ?Eh, ?Eru, ?Ec, ?Ep, ?Ee, ?Esl; unfold item0 in *; rewrite ?Ei, ?Ern, ?Erm; auto.
+  constructor; rewrite ?Eu, ?Eh, ?Ec, ?Ep, ?Ee, ?Esl; unfold item0 in *; rewrite ?Ei, ?Ern, ?Erm; auto.
   - rewrite Et. exact T2.
   - intros w H. rewrite Ep. auto.
   - intros w H H0. rewrite Ep. auto.
@@ -141,7 +142,7 @@ Qed.
 
 Lemma tinv_same C s s' u : same_ghost s s' -> tinv C s u -> tinv C s' u.
 Proof.
-  intros [E1 E2 E3 E4 E5 E6 E7 E8 E9 E10 E11 E12 E13 E14]. apply tinv_frame; auto. rewrite E3. tauto.
+  intros [E1 E2 E3 E4 E5 E6 E7 E8 E9 E10 E11 E12 E13 E14]. apply tinv_frame; auto. rewrite E3. tauto. rewrite E6. auto.
 Qed.
 
 (* a step that changes nothing the invariant looks at and keeps the thread inside its class *)
@@ -257,7 +258,7 @@ Hypothesis Es : forall x, c_sig (C' x) = c_sig (C x).
 Hypothesis Er : forall x, c_run (C' x) = c_run (C x).
 Hypothesis Ew : forall x, c_wake (C' x) = c_wake (C x).
 Hypothesis Et : token s' = Some (Some u) <-> token s = Some (Some u).
-Hypothesis Eru : running s' = running s.
+Hypothesis Eru : running s = Some u -> running s' = Some u.
 Hypothesis Ep : forall x, ph s' x = ph s x.
 Hypothesis Ee : ev s' u = ev s u.
 Hypothesis Esl : slp s' u = slp s u.
@@ -269,7 +270,7 @@ Hypothesis Erm : remote s' u = remote s u.
 Lemma tinv_acquire t : holder s = None -> holder s' = Some t -> u <> t -> cur s' = cur s -> tinv C s u -> tinv C' s' u.
 Proof.
   intros Hn Hs Ne Ec [T1 T2 T3 T4 T5 T6 T7 T8 T9 T10 T11 T12 T13 T14 T15].
-  constructor; rewrite ?Eu, ?Eru, ?Ec, ?Ep, ?Ee, ?Esl; unfold item0 in *; rewrite ?Ei, ?Ern, ?Erm; auto.
+  constructor; rewrite ?Eu, ?Ec, ?Ep, ?Ee, ?Esl; unfold item0 in *; rewrite ?Ei, ?Ern, ?Erm; auto.
   - intros H. specialize (T1 H). congruence.
   - rewrite Et. exact T2.
   - intros w H. rewrite Ep. auto.
@@ -289,7 +290,7 @@ Lemma tinv_release t : holder s = Some t -> holder s' = None -> u <> t -> cur s 
   c_run (C t) = None -> tinv C s u -> tinv C' s' u.
 Proof.
   intros Hh Hs Ne Ec Ec' Hr [T1 T2 T3 T4 T5 T6 T7 T8 T9 T10 T11 T12 T13 T14 T15].
-  constructor; rewrite ?Eu, ?Eru, ?Ep, ?Ee, ?Esl; unfold item0 in *; rewrite ?Ei, ?Ern, ?Erm; auto.
+  constructor; rewrite ?Eu, ?Ep, ?Ee, ?Esl; unfold item0 in *; rewrite ?Ei, ?Ern, ?Erm; auto.
   - intros H. specialize (T1 H). congruence.
   - rewrite Et. exact T2.
   - intros w H. rewrite Ep. auto.
@@ -311,7 +312,7 @@ Lemma tinv_frame_pht C C' s s' t u :
   u <> t -> C' u = C u ->
   (forall x, c_sig (C' x) = c_sig (C x)) -> (forall x, c_run (C' x) = c_run (C x)) ->
   (forall x, c_wake (C' x) = c_wake (C x)) ->
-  holder s' = holder s -> token s' = token s -> running s' = running s ->
+  holder s' = holder s -> token s' = token s -> (running s = Some u -> running s' = Some u) ->
   cur s' = cur s -> (forall x, x <> t -> ph s' x = ph s x) ->
   (forall d, ph s t <> PhSig d) -> (forall h, ph s t <> PhPopR h) ->
   ev s' u = ev s u -> slp s' u = slp s u -> ist s' u = ist s u -> runs s' u = runs s u -> remote s' u = remote s u ->
@@ -319,7 +320,7 @@ Lemma tinv_frame_pht C C' s s' t u :
 Proof.
   intros Ne Eu Es Er Ew Eh Et Eru Ec Ep N1 N2 Ee Esl Ei Ern Erm [T1 T2 T3 T4 T5 T6 T7 T8 T9 T10 T11 T12 T13 T14 T15].
   pose proof (Ep u Ne) as Epu.
-  constructor; rewrite ?Eu, ?Eh, ?Et, ?Eru, ?Ec, ?Epu, ?Ee, ?Esl; unfold item0 in *; rewrite ?Ei, ?Ern, ?Erm; auto.
+  constructor; rewrite ?Eu, ?Eh, ?Et, ?Ec, ?Epu, ?Ee, ?Esl; unfold item0 in *; rewrite ?Ei, ?Ern, ?Erm; auto.
   - intros w H. destruct (Z.eq_dec w t) as [->|Nw]; [exfalso; apply (N1 u); auto|]. rewrite Ep by exact Nw. auto.
   - intros w H H0. destruct (Z.eq_dec w t) as [->|Nw]; [exfalso; apply (N2 u); auto|]. rewrite Ep by exact Nw. auto.
   - intros H. apply (waitinv_frame C C' s s'); auto.
